@@ -1,96 +1,133 @@
-//! Witness search for C14 (and the size clause of C03): feed the REAL FileDeduper a fragmented dedup pattern through a
-//! truthful mock store and compare the reported metrics with what was fed.
+//! Witness search for C14 (and the size clause of C03): feed the REAL FileDeduper dedup patterns (fragmented histories that switch
+//! the fragmentation prevention on and off, in-xorb repeats, stored runs, xorb cuts, shards arriving through the global-dedup restart
+//! path) through a truthful mock store and compare the reported metrics, per process_chunks call and cumulatively, with what was fed:
+//!   total == fed; new + deduped == total (bytes and chunks); withheld-by-defrag <= new, and never more than the new chunks that were
+//!   already known somewhere (a first-ever chunk cannot have been "withheld from dedup"); new == what physically went into the
+//!   registered xorbs + the remaining-data aggregator; the sum of the per-call metrics == the file metrics (all 13 fields);
+//!   segment bytes == fed bytes; DeduplicationMetrics::merge_in == field-wise sums.
+//! The fragmentation constants and MAX_XORB_CHUNKS are read once per process: the program re-executes itself per configuration.
 //! Prints `WITNESS <description>` and exits 1 when a conservation law is violated, exits 0 otherwise.
-use std::collections::HashMap;
-use std::sync::Arc;
+//! Opt-in (fails on HEAD, not part of C14 as stated): VERIF_C14_GLOBAL_LE_DEDUPED=1 also demands deduped_*_by_global_dedup <= deduped_*.
+use std::collections::{HashMap, HashSet, VecDeque};
+use std::panic::{catch_unwind, AssertUnwindSafe};
+use std::sync::{Arc, Mutex};
 
-use deduplication::{Chunk, DeduplicationDataInterface, FileDeduper, RawXorbData};
+use deduplication::constants::MAX_XORB_CHUNKS;
+use deduplication::{Chunk, DeduplicationDataInterface, DeduplicationMetrics, FileDeduper, RawXorbData};
 use mdb_shard::file_structs::FileDataSequenceEntry;
 use merklehash::{compute_data_hash, MerkleHash};
+use rand::rngs::StdRng;
+use rand::{Rng, SeedableRng};
 
-struct MockStore {
-    // first chunk hash of a stored run -> (xorb hash, start index, hashes of the xorb from that index, lengths)
-    runs: HashMap<MerkleHash, (MerkleHash, usize, Vec<(MerkleHash, usize)>)>,
+/// (NRANGES_IN_STREAMING_FRAGMENTATION_ESTIMATOR, MIN_N_CHUNKS_PER_RANGE, HYSTERESIS_FACTOR, MAX_XORB_CHUNKS); None = default
+/// (128, 8.0, 0.5, 8192).  The first three live in a private module: their pickup is verified by behaviour (probe()).
+const CONFIGS: [Option<(usize, f32, f32, usize)>; 7] = [
+    None,
+    Some((4, 8.0, 0.5, 16)),
+    Some((16, 3.0, 0.9, 8192)),
+    Some((8, 64.0, 0.5, 50)),
+    Some((2, 8.0, 0.5, 3)),
+    Some((32, 1.0, 0.5, 8192)), // low threshold 0.5 chunks per range: can never refuse
+    Some((1, 8.0, 0.5, 7)),
+];
+
+type HL = (MerkleHash, usize);
+
+#[derive(Default)]
+struct Store {
+    xorbs: HashMap<MerkleHash, Vec<HL>>,
+    first: HashMap<MerkleHash, (MerkleHash, usize)>,
+    late: VecDeque<(MerkleHash, Vec<HL>)>,
+    caps: Vec<usize>,
+    calls: usize,
+    new_chunks: usize, // what was handed over through register_new_xorb
+    new_bytes: usize,
+    restarts: usize,
+}
+impl Store {
+    fn add(&mut self, x: MerkleHash, chunks: Vec<HL>) {
+        for (i, (h, _)) in chunks.iter().enumerate() {
+            self.first.entry(*h).or_insert((x, i));
+        }
+        self.xorbs.insert(x, chunks);
+    }
+}
+struct Mock {
+    store: Arc<Mutex<Store>>,
+    outstanding: usize,
+    restart: bool,
 }
 
 #[async_trait::async_trait]
-impl DeduplicationDataInterface for MockStore {
+impl DeduplicationDataInterface for Mock {
     type ErrorType = String;
     async fn chunk_hash_dedup_query(&self, q: &[MerkleHash]) -> Result<Option<(usize, FileDataSequenceEntry)>, String> {
-        if let Some((xorb, start, rest)) = self.runs.get(&q[0]) {
+        let mut s = self.store.lock().unwrap();
+        let cap = if s.caps.is_empty() { usize::MAX } else { s.caps[s.calls % s.caps.len()] }.max(1);
+        s.calls += 1;
+        if let Some((x, i)) = s.first.get(&q[0]) {
+            let list = &s.xorbs[x];
             let mut n = 0;
-            let mut bytes = 0usize;
-            while n < q.len() && n < rest.len() && rest[n].0 == q[n] {
-                bytes += rest[n].1;
+            let mut bytes = 0;
+            while n < q.len() && n < cap && i + n < list.len() && list[i + n].0 == q[n] {
+                bytes += list[i + n].1;
                 n += 1;
             }
-            return Ok(Some((n, FileDataSequenceEntry::new(*xorb, bytes, *start, *start + n))));
+            return Ok(Some((n, FileDataSequenceEntry::new(*x, bytes, *i, *i + n))));
         }
         Ok(None)
     }
     async fn register_global_dedup_query(&mut self, _h: MerkleHash) -> Result<(), String> {
+        self.outstanding += 1;
         Ok(())
     }
     async fn complete_global_dedup_queries(&mut self) -> Result<bool, String> {
-        Ok(false)
+        let had = std::mem::take(&mut self.outstanding);
+        if !self.restart || had == 0 {
+            return Ok(false);
+        }
+        let mut s = self.store.lock().unwrap();
+        s.restarts += 1;
+        if let Some((x, list)) = s.late.pop_front() {
+            s.add(x, list);
+        }
+        Ok(true)
     }
-    async fn register_new_xorb(&mut self, _x: RawXorbData) -> Result<(), String> {
+    async fn register_new_xorb(&mut self, x: RawXorbData) -> Result<(), String> {
+        let mut s = self.store.lock().unwrap();
+        let list: Vec<HL> = x.cas_info.chunks.iter().map(|c| (c.chunk_hash, c.unpacked_segment_bytes as usize)).collect();
+        s.new_chunks += list.len();
+        s.new_bytes += x.data.iter().map(|d| d.len()).sum::<usize>();
+        s.add(x.hash(), list);
         Ok(())
     }
 }
 
 fn chunk(tag: u64, len: usize) -> Chunk {
-    let mut d = vec![0u8; len];
+    let mut d = vec![0u8; len.max(8)];
     d[..8].copy_from_slice(&tag.to_le_bytes());
     Chunk { hash: compute_data_hash(&d), data: Arc::from(d) }
 }
 
-fn run_case(run_len: usize, n_pairs: usize, tail_dedup_len: usize, block: usize) -> Option<String> {
-    let mut store = MockStore { runs: HashMap::new() };
-    let mut file: Vec<Chunk> = Vec::new();
-    let mut tag = 1u64;
-    let mut mk = |len: usize| {
-        tag += 1;
-        chunk(tag, len)
-    };
-    for i in 0..n_pairs {
-        // a stored run of `run_len` chunks in its own xorb
-        let run: Vec<Chunk> = (0..run_len).map(|k| mk(100 + k)).collect();
-        let xorb = compute_data_hash(format!("xorb{i}").as_bytes());
-        let hl: Vec<_> = run.iter().map(|c| (c.hash, c.data.len())).collect();
-        store.runs.insert(run[0].hash, (xorb, 0, hl));
-        file.extend(run);
-        for k in 0..run_len {
-            file.push(mk(200 + k));
-        }
-    }
-    // a short stored run that fragmentation prevention may reject
-    let run: Vec<Chunk> = (0..tail_dedup_len).map(|k| mk(300 + k)).collect();
-    let xorb = compute_data_hash(b"xorb-tail");
-    let hl: Vec<_> = run.iter().map(|c| (c.hash, c.data.len())).collect();
-    store.runs.insert(run[0].hash, (xorb, 0, hl));
-    file.extend(run);
-    for k in 0..3 {
-        file.push(mk(400 + k));
-    }
+fn fields(m: &DeduplicationMetrics) -> [usize; 13] {
+    [
+        m.total_bytes, m.deduped_bytes, m.new_bytes, m.deduped_bytes_by_global_dedup, m.defrag_prevented_dedup_bytes, m.total_chunks, m.deduped_chunks, m.new_chunks,
+        m.deduped_chunks_by_global_dedup, m.defrag_prevented_dedup_chunks, m.xorb_bytes_uploaded, m.shard_bytes_uploaded, m.total_bytes_uploaded,
+    ]
+}
+const FIELD_NAMES: [&str; 13] = [
+    "total_bytes", "deduped_bytes", "new_bytes", "deduped_bytes_by_global_dedup", "defrag_prevented_dedup_bytes", "total_chunks", "deduped_chunks", "new_chunks",
+    "deduped_chunks_by_global_dedup", "defrag_prevented_dedup_chunks", "xorb_bytes_uploaded", "shard_bytes_uploaded", "total_bytes_uploaded",
+];
 
-    let fed_bytes: usize = file.iter().map(|c| c.data.len()).sum();
-    let fed_chunks = file.len();
-    let rt = tokio::runtime::Builder::new_current_thread().build().unwrap();
-    let mut deduper = FileDeduper::new(store);
-    let mut sum = deduplication::DeduplicationMetrics::default();
-    for b in file.chunks(block) {
-        let m = rt.block_on(deduper.process_chunks(b)).unwrap();
-        sum.merge_in(&m);
-    }
-    let (_h, agg, m, _x) = deduper.finalize([0u8; 32], None);
-    let seg_bytes = agg.pending_file_info[0].0.file_size();
+/// the conservation laws on one metrics value for `chunks` fed chunks of `bytes` bytes
+fn laws(m: &DeduplicationMetrics, chunks: usize, bytes: usize, restarted: bool) -> Vec<String> {
     let mut bad = vec![];
-    if m.total_bytes != fed_bytes {
-        bad.push(format!("total_bytes={} but {} bytes were fed", m.total_bytes, fed_bytes));
+    if m.total_bytes != bytes {
+        bad.push(format!("total_bytes={} but {} bytes were fed", m.total_bytes, bytes));
     }
-    if m.total_chunks != fed_chunks {
-        bad.push(format!("total_chunks={} but {} chunks were fed", m.total_chunks, fed_chunks));
+    if m.total_chunks != chunks {
+        bad.push(format!("total_chunks={} but {} chunks were fed", m.total_chunks, chunks));
     }
     if m.new_bytes + m.deduped_bytes != m.total_bytes {
         bad.push(format!("new_bytes {} + deduped_bytes {} != total_bytes {}", m.new_bytes, m.deduped_bytes, m.total_bytes));
@@ -98,104 +135,537 @@ fn run_case(run_len: usize, n_pairs: usize, tail_dedup_len: usize, block: usize)
     if m.new_chunks + m.deduped_chunks != m.total_chunks {
         bad.push(format!("new_chunks {} + deduped_chunks {} != total_chunks {}", m.new_chunks, m.deduped_chunks, m.total_chunks));
     }
-    if m.defrag_prevented_dedup_bytes > m.new_bytes {
-        bad.push(format!("defrag_prevented_dedup_bytes {} > new_bytes {}", m.defrag_prevented_dedup_bytes, m.new_bytes));
-    }
-    if seg_bytes != fed_bytes {
-        bad.push(format!("segment bytes {} != fed bytes {}", seg_bytes, fed_bytes));
-    }
-    if sum.total_bytes != m.total_bytes {
-        bad.push(format!("sum of per-call metrics {} != file metrics {}", sum.total_bytes, m.total_bytes));
-    }
-    if bad.is_empty() {
-        None
-    } else {
-        Some(format!(
-            "FileDeduper fed {n_pairs} x ({run_len} stored chunks, {run_len} fresh chunks) then a stored run of {tail_dedup_len} then 3 fresh, in blocks of {block}: {}; defrag_prevented_dedup_chunks={}",
-            bad.join("; "),
-            m.defrag_prevented_dedup_chunks
-        ))
-    }
-}
-
-
-/// Scenario 2: the fragmentation window is filled by accepted dedup ranges only (no new data), then a short stored run that
-/// is rejected appears twice, so that its second appearance is also found in the file's own new data.
-fn run_case_repeat(long: usize, short: usize, reps: usize, block: usize) -> Option<String> {
-    let mut store = MockStore { runs: HashMap::new() };
-    let mut file: Vec<Chunk> = Vec::new();
-    let mut tag = 1_000_000u64;
-    let mut mk = |len: usize| {
-        tag += 1;
-        chunk(tag, len)
-    };
-    let mut add_run = |store: &mut MockStore, name: String, n: usize, mk: &mut dyn FnMut(usize) -> Chunk| -> Vec<Chunk> {
-        let run: Vec<Chunk> = (0..n).map(|k| mk(100 + k)).collect();
-        let xorb = compute_data_hash(name.as_bytes());
-        let hl: Vec<_> = run.iter().map(|c| (c.hash, c.data.len())).collect();
-        store.runs.insert(run[0].hash, (xorb, 0, hl));
-        run
-    };
-    for i in 0..64 {
-        file.extend(add_run(&mut store, format!("a{i}"), long, &mut mk));
-        file.extend(add_run(&mut store, format!("b{i}"), short, &mut mk));
-    }
-    let r = add_run(&mut store, "r".to_string(), short, &mut mk);
-    for _ in 0..reps {
-        file.extend(r.iter().cloned());
-    }
-    let fed_bytes: usize = file.iter().map(|c| c.data.len()).sum();
-    let rt = tokio::runtime::Builder::new_current_thread().build().unwrap();
-    let mut deduper = FileDeduper::new(store);
-    for b in file.chunks(block) {
-        rt.block_on(deduper.process_chunks(b)).unwrap();
-    }
-    let (_h, _agg, m, _x) = deduper.finalize([0u8; 32], None);
-    let mut bad = vec![];
-    if m.total_bytes != fed_bytes {
-        bad.push(format!("total_bytes={} but {} bytes were fed", m.total_bytes, fed_bytes));
-    }
-    if m.new_bytes + m.deduped_bytes != m.total_bytes {
-        bad.push(format!("new_bytes {} + deduped_bytes {} != total_bytes {}", m.new_bytes, m.deduped_bytes, m.total_bytes));
-    }
     if m.defrag_prevented_dedup_bytes > m.new_bytes || m.defrag_prevented_dedup_chunks > m.new_chunks {
         bad.push(format!(
-            "withheld-from-dedup exceeds new data: defrag_prevented_dedup_chunks {} > new_chunks {} (bytes {} vs {})",
+            "withheld-from-dedup exceeds new data: defrag_prevented_dedup_chunks {} vs new_chunks {}, defrag_prevented_dedup_bytes {} vs new_bytes {}",
             m.defrag_prevented_dedup_chunks, m.new_chunks, m.defrag_prevented_dedup_bytes, m.new_bytes
         ));
     }
+    if (m.defrag_prevented_dedup_bytes == 0) != (m.defrag_prevented_dedup_chunks == 0) || (m.new_bytes == 0) != (m.new_chunks == 0) || (m.deduped_bytes == 0) != (m.deduped_chunks == 0) {
+        bad.push(format!(
+            "byte and chunk counters disagree about being zero: new {}/{}, deduped {}/{}, withheld {}/{} (bytes/chunks; every chunk has >= 8 bytes)",
+            m.new_bytes, m.new_chunks, m.deduped_bytes, m.deduped_chunks, m.defrag_prevented_dedup_bytes, m.defrag_prevented_dedup_chunks
+        ));
+    }
+    if m.deduped_bytes_by_global_dedup > m.total_bytes || m.deduped_chunks_by_global_dedup > m.total_chunks || (!restarted && (m.deduped_bytes_by_global_dedup != 0 || m.deduped_chunks_by_global_dedup != 0)) {
+        bad.push(format!(
+            "deduped_by_global_dedup = {} bytes / {} chunks of {} / {} in total, store {} announced new shards",
+            m.deduped_bytes_by_global_dedup, m.deduped_chunks_by_global_dedup, m.total_bytes, m.total_chunks, if restarted { "has" } else { "never" }
+        ));
+    }
+    // opt-in (not part of C14 as stated; violated on HEAD: a second-pass hit is counted before the fragmentation prevention decides)
+    if std::env::var("VERIF_C14_GLOBAL_LE_DEDUPED").is_ok() && (m.deduped_bytes_by_global_dedup > m.deduped_bytes || m.deduped_chunks_by_global_dedup > m.deduped_chunks) {
+        bad.push(format!(
+            "deduped_by_global_dedup ({} chunks / {} bytes) exceeds deduped ({} chunks / {} bytes)",
+            m.deduped_chunks_by_global_dedup, m.deduped_bytes_by_global_dedup, m.deduped_chunks, m.deduped_bytes
+        ));
+    }
+    if m.xorb_bytes_uploaded != 0 || m.shard_bytes_uploaded != 0 || m.total_bytes_uploaded != 0 {
+        bad.push(format!("the deduper reports uploads ({} xorb / {} shard / {} total bytes) although it uploads nothing", m.xorb_bytes_uploaded, m.shard_bytes_uploaded, m.total_bytes_uploaded));
+    }
+    bad
+}
+
+#[derive(Clone)]
+struct Case {
+    name: String,
+    file: Vec<Chunk>,
+    remote: Vec<Vec<Chunk>>,
+    late: Vec<Vec<Chunk>>,
+    blocks: Vec<usize>, // 0 = empty call
+    caps: Vec<usize>,
+    restart: bool,
+}
+
+#[derive(Default)]
+struct Cov {
+    withheld: usize,
+    deduped: usize,
+    global: usize,
+    restarts: usize,
+    cuts: usize,
+    files_with_withheld_and_later_dedup: usize,
+}
+
+fn panic_msg(e: Box<dyn std::any::Any + Send>) -> String {
+    e.downcast_ref::<String>().cloned().or_else(|| e.downcast_ref::<&str>().map(|s| s.to_string())).unwrap_or_default()
+}
+
+fn run(c: &Case, cov: &mut Cov) -> Option<String> {
+    let what = format!(
+        "{} [file of {} chunks fed in blocks {:?} (0 = empty call), {} stored xorbs, {} arriving xorbs, store answers capped at {:?}, restarts {}]",
+        c.name, c.file.len(), c.blocks, c.remote.len(), c.late.len(), c.caps, if c.restart { "on" } else { "off" }
+    );
+    let store = Arc::new(Mutex::new(Store::default()));
+    let mut known: HashSet<MerkleHash> = HashSet::new();
+    {
+        let mut s = store.lock().unwrap();
+        s.caps = c.caps.clone();
+        for (k, r) in c.remote.iter().enumerate() {
+            s.add(compute_data_hash(format!("remote{k}").as_bytes()), r.iter().map(|c| (c.hash, c.data.len())).collect());
+            known.extend(r.iter().map(|c| c.hash));
+        }
+        for (k, r) in c.late.iter().enumerate() {
+            s.late.push_back((compute_data_hash(format!("late{k}").as_bytes()), r.iter().map(|c| (c.hash, c.data.len())).collect()));
+            known.extend(r.iter().map(|c| c.hash));
+        }
+    }
+    // chunks that nobody has seen before their position in the file: they must be new and cannot count as withheld from dedup
+    let (mut first_chunks, mut first_bytes) = (0usize, 0usize);
+    for ch in &c.file {
+        if known.insert(ch.hash) {
+            first_chunks += 1;
+            first_bytes += ch.data.len();
+        }
+    }
+    let rt = tokio::runtime::Builder::new_current_thread().build().unwrap();
+    let mut d = FileDeduper::new(Mock { store: store.clone(), outstanding: 0, restart: c.restart });
+    let mut sum = DeduplicationMetrics::default();
+    let mut sum_ref = [0usize; 13];
+    let (mut pos, mut k) = (0usize, 0usize);
+    let mut withheld_then_dedup = false;
+    while pos < c.file.len() {
+        let n = c.blocks[k % c.blocks.len()].min(c.file.len() - pos);
+        k += 1;
+        let b = &c.file[pos..pos + n];
+        let m = match catch_unwind(AssertUnwindSafe(|| rt.block_on(d.process_chunks(b)))) {
+            Ok(Ok(m)) => m,
+            Ok(Err(e)) => return Some(format!("{what}: process_chunks failed on chunks [{pos}, {}): {e}", pos + n)),
+            Err(e) => return Some(format!("{what}: process_chunks panicked on chunks [{pos}, {}): {}", pos + n, panic_msg(e))),
+        };
+        let restarted = store.lock().unwrap().restarts > 0;
+        let bad = laws(&m, n, b.iter().map(|c| c.data.len()).sum(), restarted);
+        if !bad.is_empty() {
+            return Some(format!("{what}: the metrics returned by process_chunks for chunks [{pos}, {}): {}", pos + n, bad.join("; ")));
+        }
+        if sum.defrag_prevented_dedup_chunks > 0 && m.deduped_chunks > 0 {
+            withheld_then_dedup = true;
+        }
+        sum.merge_in(&m);
+        for (a, b) in sum_ref.iter_mut().zip(fields(&m)) {
+            *a += b;
+        }
+        if fields(&sum) != sum_ref {
+            return Some(format!("{what}: DeduplicationMetrics::merge_in is not the field-wise sum: {:?} vs {:?}", fields(&sum), sum_ref));
+        }
+        pos += n;
+    }
+    let (_h, agg, m, xorbs) = match catch_unwind(AssertUnwindSafe(|| d.finalize([0u8; 32], None))) {
+        Ok(r) => r,
+        Err(e) => return Some(format!("{what}: finalize panicked: {}", panic_msg(e))),
+    };
+    let s = store.lock().unwrap();
+    let fed_bytes: usize = c.file.iter().map(|c| c.data.len()).sum();
+    let mut bad = laws(&m, c.file.len(), fed_bytes, s.restarts > 0);
+    if fields(&m) != sum_ref {
+        let i = (0..13).find(|&i| fields(&m)[i] != sum_ref[i]).unwrap();
+        bad.push(format!("file metrics differ from the sum of the per-call metrics: {} = {} vs {}", FIELD_NAMES[i], fields(&m)[i], sum_ref[i]));
+    }
+    let seg_bytes = agg.pending_file_info[0].0.file_size();
+    if seg_bytes != fed_bytes {
+        bad.push(format!("segment bytes {} != fed bytes {}", seg_bytes, fed_bytes));
+    }
+    let (stored_chunks, stored_bytes) = (s.new_chunks + agg.num_chunks(), s.new_bytes + agg.num_bytes());
+    if m.new_chunks != stored_chunks || m.new_bytes != stored_bytes {
+        bad.push(format!("new_chunks {} / new_bytes {} but {} chunks / {} bytes went into the {} registered xorbs and the remaining-data aggregator", m.new_chunks, m.new_bytes, stored_chunks, stored_bytes, xorbs.len()));
+    }
+    if m.new_chunks < first_chunks || m.new_bytes < first_bytes {
+        bad.push(format!("new_chunks {} / new_bytes {} although {first_chunks} chunks / {first_bytes} bytes of the file were never seen before", m.new_chunks, m.new_bytes));
+    } else if m.defrag_prevented_dedup_chunks > m.new_chunks - first_chunks || m.defrag_prevented_dedup_bytes > m.new_bytes - first_bytes {
+        bad.push(format!(
+            "defrag_prevented_dedup_chunks {} / bytes {} but only {} new chunks / {} new bytes were known anywhere before (new {} / {}, of which {first_chunks} / {first_bytes} never seen before)",
+            m.defrag_prevented_dedup_chunks, m.defrag_prevented_dedup_bytes, m.new_chunks - first_chunks, m.new_bytes - first_bytes, m.new_chunks, m.new_bytes
+        ));
+    }
+    cov.withheld += m.defrag_prevented_dedup_chunks;
+    cov.deduped += m.deduped_chunks;
+    cov.global += m.deduped_chunks_by_global_dedup;
+    cov.restarts += s.restarts;
+    cov.cuts += xorbs.len();
+    cov.files_with_withheld_and_later_dedup += withheld_then_dedup as usize;
     if bad.is_empty() {
         None
     } else {
-        Some(format!(
-            "FileDeduper fed 64 x (stored run of {long}, stored run of {short}) then {reps} x the same stored run of {short}, blocks of {block}: {}",
-            bad.join("; ")
-        ))
+        Some(format!("{what}: {}; defrag_prevented_dedup_chunks={}", bad.join("; "), m.defrag_prevented_dedup_chunks))
     }
 }
 
-fn main() {
+struct Gen {
+    tag: u64,
+    xorb: usize,
+}
+impl Gen {
+    fn fresh(&mut self, n: usize, len: usize) -> Vec<Chunk> {
+        (0..n).map(|k| { self.tag += 1; chunk(self.tag, len + k % 5) }).collect()
+    }
+    fn eligible(&mut self) -> Chunk {
+        loop {
+            self.tag += 1;
+            let c = chunk(self.tag, 77);
+            if mdb_shard::hash_is_global_dedup_eligible(&c.hash) {
+                return c;
+            }
+        }
+    }
+}
+
+/// `pairs` x ([k new chunks][a stored run of `run` chunks, each run in its own xorb])
+fn fragmented(g: &mut Gen, remote: &mut Vec<Vec<Chunk>>, pairs: usize, k: usize, run: usize) -> Vec<Chunk> {
+    let mut f = vec![];
+    for _ in 0..pairs {
+        f.extend(g.fresh(k, 100));
+        let r = g.fresh(run, 200);
+        g.xorb += 1;
+        f.extend(r.iter().cloned());
+        remote.push(r);
+    }
+    f
+}
+
+/// behavioural check that the private fragmentation constants were picked up
+fn probe(cfg: (usize, f32, f32, usize)) -> Result<(), String> {
+    let (n, m, h, _) = cfg;
+    let mut g = Gen { tag: 1 << 50, xorb: 0 };
+    let mut remote = vec![];
+    let cpr = if n == 1 { 3.0 } else { 2.0 };
+    let pairs = if m * h > cpr { n + 4 } else { 80 };
+    let file = fragmented(&mut g, &mut remote, pairs, 3, 1);
+    let mut cov = Cov::default();
+    let c = Case { name: "probe".into(), file, remote, late: vec![], blocks: vec![usize::MAX], caps: vec![], restart: false };
+    if let Some(w) = run(&c, &mut cov) {
+        println!("WITNESS {w}");
+        std::process::exit(1);
+    }
+    // with [3 new][1 stored] ranges the window holds 2 chunks per range (3 for a window of one range): refusals start once the window is full (n ranges) iff the
+    // low threshold m*h exceeds 2; with the defaults (128 ranges) a file of fewer than 64 pairs is never refused anything
+    if (m * h > cpr) != (cov.withheld > 0) {
+        return Err(format!("{pairs} x ([3 new][1 stored chunk]): {} chunks withheld from dedup, expected {}", cov.withheld, if m * h > cpr { "some" } else { "none" }));
+    }
+    Ok(())
+}
+
+fn child(idx: usize) -> i32 {
+    let cfg = CONFIGS[idx];
+    let (nr, minc, hyst, maxc) = cfg.unwrap_or((128, 8.0, 0.5, 8192));
+    if *MAX_XORB_CHUNKS != maxc {
+        println!("infrastructure: HF_XET_MAX_XORB_CHUNKS={maxc} was not picked up (value {})", *MAX_XORB_CHUNKS);
+        return 2;
+    }
+    if let Some(c) = cfg {
+        if let Err(e) = probe(c) {
+            println!("infrastructure: the fragmentation constants {c:?} do not seem to be in force: {e}");
+            return 2;
+        }
+    }
+    let seed: u64 = std::env::var("VERIF_SEED").ok().and_then(|s| s.parse().ok()).unwrap_or(0);
+    let mut g = Gen { tag: (idx as u64 + 1) << 40, xorb: 0 };
+    let mut cases: Vec<Case> = vec![];
+    let base = Case { name: String::new(), file: vec![], remote: vec![], late: vec![], blocks: vec![usize::MAX], caps: vec![], restart: false };
+    let thr = (minc.ceil() as usize).max(2); // a stored run at least this long is never refused
+
+    // A. the two original scenarios (default constants: 64+ pairs needed; scaled by the window length otherwise)
+    for run_len in [2usize, 3, 5] {
+        for n_pairs in [nr / 2 + 6, nr + 12] {
+            for tail in [1usize, 2] {
+                let mut remote = vec![];
+                let mut f = fragmented(&mut g, &mut remote, n_pairs, run_len, run_len);
+                let t = g.fresh(tail, 300);
+                f.extend(t.iter().cloned());
+                remote.push(t);
+                f.extend(g.fresh(3, 400));
+                let mut c = base.clone();
+                c.name = format!("{n_pairs} x ({run_len} new chunks, a stored run of {run_len}) then a stored run of {tail} then 3 new");
+                c.file = f;
+                c.remote = remote;
+                cases.push(c);
+            }
+        }
+    }
     for (long, short) in [(4usize, 3usize), (6, 5), (3, 2)] {
         for reps in [2usize, 3] {
-            for block in [10_000usize, 1] {
-                if let Some(w) = run_case_repeat(long, short, reps, block) {
-                    println!("WITNESS {w}");
-                    std::process::exit(1);
+            let mut remote = vec![];
+            let mut f = vec![];
+            for _ in 0..nr / 2 {
+                let a = g.fresh(long, 100);
+                let b = g.fresh(short, 100);
+                f.extend(a.iter().cloned());
+                f.extend(b.iter().cloned());
+                remote.push(a);
+                remote.push(b);
+            }
+            let r = g.fresh(short, 100);
+            for _ in 0..reps {
+                f.extend(r.iter().cloned());
+            }
+            remote.push(r);
+            let mut c = base.clone();
+            c.name = format!("{} x (stored run of {long}, stored run of {short}) then {reps} x the same stored run of {short}", nr / 2);
+            c.file = f;
+            c.remote = remote;
+            cases.push(c);
+        }
+    }
+    // B. hysteresis: fragmented phase (refusals start), a long stretch of new data (chunks per range rises above the target: dedup
+    //    allowed again at the low threshold), fragmented again, a long stored run (never refused), the SAME short stored runs offered
+    //    while refusing and again after recovery, in-xorb repeats of chunks stored while refusing
+    for (k, run_len) in [(3usize, 1usize), (5, 2), (1, 1), (7, 3)] {
+        let mut remote = vec![];
+        let mut f = fragmented(&mut g, &mut remote, nr + 6, k, run_len);
+        let x = g.fresh(run_len, 210);
+        let y = g.fresh(thr + 3, 220);
+        f.extend(g.fresh(2, 100));
+        f.extend(x.iter().cloned()); // offered while refusing
+        f.extend(g.fresh(2, 100));
+        f.extend(y.iter().cloned()); // long run: accepted whatever the state
+        f.extend(g.fresh(nr * thr + 5, 100)); // recovery
+        f.extend(x.iter().cloned()); // offered again
+        f.extend(fragmented(&mut g, &mut remote, nr / 2 + 3, k, run_len));
+        let back = f.len();
+        f.extend(f[back - 2 * (k + run_len)..back - (k + run_len)].to_vec()); // repeat of one (new, stored) period
+        f.extend(fragmented(&mut g, &mut remote, nr + 3, k, run_len));
+        f.extend(x.iter().cloned());
+        f.extend(y[1..].iter().cloned());
+        remote.push(x);
+        remote.push(y);
+        let mut c = base.clone();
+        c.name = format!(
+            "hysteresis: {} x ({k} new, stored run of {run_len}), 2 new, stored run X of {run_len}, 2 new, stored run Y of {}, {} new chunks, X again, {} more periods, one period repeated, {} more periods, X, Y[1..]",
+            nr + 6, thr + 3, nr * thr + 5, nr / 2 + 3, nr + 3
+        );
+        c.file = f;
+        c.remote = remote;
+        cases.push(c);
+    }
+    // C. in-xorb repeats as the only source of dedup (fragmented), across xorb cuts
+    {
+        let a = g.fresh(3 * nr + 20 + thr, 100);
+        let mut f = a.clone();
+        for j in 0..nr + 10 {
+            f.extend(g.fresh(3, 110));
+            f.push(a[2 * j + 1].clone());
+        }
+        for j in 0..nr + 10 {
+            f.push(a[2 * j].clone());
+            f.push(a[2 * j + 1].clone());
+            f.extend(g.fresh(1, 120));
+        }
+        f.extend(a[5..5 + thr + 2].iter().cloned());
+        let mut c = base.clone();
+        c.name = format!("{} new chunks A, {} x (3 new, A[2j+1]), {} x (A[2j], A[2j+1], 1 new), A[5..{}]", a.len(), nr + 10, nr + 10, 5 + thr + 2);
+        c.file = f;
+        cases.push(c);
+    }
+    // D. global dedup restart: hash-eligible chunks inside a fragmented history; the arriving shards hold stretches of the file
+    {
+        let mut remote = vec![];
+        let mut f = vec![];
+        let mut late = vec![];
+        for j in 0..nr + 8 {
+            let start = f.len();
+            f.push(g.eligible());
+            f.extend(g.fresh(2, 100));
+            if j % 2 == 0 {
+                late.push(f[start..start + 1 + j % 3].to_vec());
+            }
+            let r = g.fresh(1 + j % 2, 200);
+            f.extend(r.iter().cloned());
+            remote.push(r);
+        }
+        let mut c = base.clone();
+        c.name = format!("{} x (hash-eligible chunk, 2 new, stored run of 1 or 2); every other period's first 1-3 chunks arrive in a shard on a restart", nr + 8);
+        c.file = f;
+        c.remote = remote;
+        c.late = late;
+        c.restart = true;
+        cases.push(c);
+    }
+    // F. a chunk-limit cut, then a fragmented history of repeats of chunks of the cut xorb (answered by the store) and of the
+    //    pending xorb (answered locally)
+    {
+        let a = g.fresh(maxc + 2 * nr + 30, 100);
+        let mut f = a.clone();
+        for j in 0..nr + 10 {
+            f.extend(g.fresh(3, 110));
+            f.push(a[(7 * j) % maxc].clone());
+            f.extend(g.fresh(2, 110));
+            f.push(a[maxc + j].clone());
+        }
+        f.extend(a[maxc.saturating_sub(thr)..maxc + 3].iter().cloned());
+        let mut c = base.clone();
+        c.name = format!("MAX_XORB_CHUNKS + {} new chunks A, {} x (3 new, A[7j mod MAX_XORB_CHUNKS] (cut xorb), 2 new, A[MAX_XORB_CHUNKS + j] (pending xorb)), A[MAX-{thr}..MAX+3]", 2 * nr + 30, nr + 10);
+        c.file = f;
+        cases.push(c);
+    }
+    let mut cov = Cov::default();
+    for c in &cases {
+        for blocks in [vec![usize::MAX], vec![1usize], vec![7], vec![3, 0, 50, 1]] {
+            for caps in [vec![], vec![1]] {
+                if !caps.is_empty() && blocks.len() == 1 && blocks[0] == 7 {
+                    continue;
+                }
+                let mut c = c.clone();
+                c.blocks = blocks.clone();
+                c.caps = caps;
+                if let Some(w) = run(&c, &mut cov) {
+                    println!("WITNESS [fragmentation window {nr} ranges, MIN_N_CHUNKS_PER_RANGE {minc}, hysteresis {hyst}, MAX_XORB_CHUNKS {maxc}] {w}");
+                    return 1;
                 }
             }
         }
     }
-    for run_len in [2usize, 3, 5] {
-        for n_pairs in [70usize, 140] {
-            for tail in [1usize, 2] {
-                for block in [1usize, 7, 10_000] {
-                    if let Some(w) = run_case(run_len, n_pairs, tail, block) {
-                        println!("WITNESS {w}");
-                        std::process::exit(1);
+    let directed = (cov.withheld, cov.files_with_withheld_and_later_dedup);
+    // E. random files (VERIF_SEED)
+    let mut rng = StdRng::seed_from_u64(seed.wrapping_mul(7919).wrapping_add(idx as u64));
+    let elig: Vec<Chunk> = (0..10).map(|_| g.eligible()).collect();
+    let rounds = if cfg.is_none() { 60 } else { 250 };
+    for round in 0..rounds {
+        let remote: Vec<Vec<Chunk>> = (0..rng.random_range(1..6)).map(|_| { let n = rng.random_range(1..14); g.fresh(n, 150) }).collect();
+        let mut f: Vec<Chunk> = vec![];
+        let mut late: Vec<Vec<Chunk>> = vec![];
+        let ops = if cfg.is_none() { rng.random_range(150..500) } else { rng.random_range(1..(6 * nr + 30)) };
+        let style = rng.random_range(0..3); // 0 short pieces, 1 mixed, 2 with long stretches
+        let mut desc = String::new();
+        for _ in 0..ops {
+            let long = style == 2 && rng.random_range(0..12) == 0;
+            let op = rng.random_range(0..8);
+            match op {
+                0..=2 => {
+                    let n = if long { rng.random_range(10..(nr * thr / 2 + 12)) } else { rng.random_range(1..(2 + 3 * style)) };
+                    f.extend(g.fresh(n, 100));
+                    if desc.len() < 300 { desc.push_str(&format!(" new{n}")); }
+                },
+                3 | 4 => {
+                    let x = rng.random_range(0..remote.len());
+                    let a = rng.random_range(0..remote[x].len());
+                    let b = if style == 0 { a + 1 } else { rng.random_range(a + 1..=remote[x].len()) };
+                    f.extend(remote[x][a..b].iter().cloned());
+                    if desc.len() < 300 { desc.push_str(&format!(" R{x}[{a}..{b}]")); }
+                },
+                5 | 6 if !f.is_empty() => {
+                    let a = rng.random_range(0..f.len());
+                    let b = rng.random_range(a + 1..=f.len().min(a + 1 + 3 * style));
+                    let v = f[a..b].to_vec();
+                    f.extend(v);
+                    if desc.len() < 300 { desc.push_str(&format!(" self[{a}..{b}]")); }
+                },
+                7 => {
+                    f.push(elig[rng.random_range(0..elig.len())].clone());
+                    if rng.random_range(0..3) == 0 && f.len() > 3 {
+                        late.push(f[f.len() - 3..].to_vec());
                     }
-                }
+                    if desc.len() < 300 { desc.push_str(" E"); }
+                },
+                _ => f.extend(g.fresh(1, 100)),
             }
         }
+        let mut c = base.clone();
+        c.name = format!("random file #{round} (VERIF_SEED={seed}):{desc}{}", if desc.len() >= 300 { " ..." } else { "" });
+        c.file = f;
+        c.remote = remote;
+        c.late = late;
+        c.restart = rng.random_range(0..2) == 0;
+        c.blocks = match rng.random_range(0..5) { 0 => vec![usize::MAX], 1 => vec![1], 2 => vec![0, 2, 9], _ => (0..rng.random_range(1..4)).map(|_| rng.random_range(1..40)).collect() };
+        c.caps = match rng.random_range(0..3) { 0 => vec![1], 1 => vec![2, usize::MAX], _ => vec![] };
+        if let Some(w) = run(&c, &mut cov) {
+            println!("WITNESS [fragmentation window {nr} ranges, MIN_N_CHUNKS_PER_RANGE {minc}, hysteresis {hyst}, MAX_XORB_CHUNKS {maxc}] {w}");
+            return 1;
+        }
+    }
+    if std::env::var("VERIF_STATS").is_ok() {
+        println!(
+            "STATS config {cfg:?}: {} directed cases, {rounds} random; withheld {} chunks (directed {}), deduped {}, by global dedup {}, restarts {}, xorb cuts {}, files with refusals followed by accepted dedup {} (directed {})",
+            cases.len(), cov.withheld, directed.0, cov.deduped, cov.global, cov.restarts, cov.cuts, cov.files_with_withheld_and_later_dedup, directed.1
+        );
+    }
+    let can_refuse = minc * hyst > 1.0;
+    if cov.deduped == 0 || cov.restarts == 0 || cov.global == 0 || (can_refuse && (directed.0 == 0 || directed.1 == 0)) {
+        println!("infrastructure: the scenarios did not reach what they are built for (withheld {}, refusal-then-dedup files {}, deduped {}, restarts {}, by global dedup {})", directed.0, directed.1, cov.deduped, cov.restarts, cov.global);
+        return 2;
+    }
+    0
+}
+
+fn check_merge_in() -> Option<String> {
+    // merge_in of metrics == field-wise sums, on values that tell the fields apart
+    let mk = |k: usize| DeduplicationMetrics {
+        total_bytes: 1009 * k + 1, deduped_bytes: 1013 * k + 2, new_bytes: 1019 * k + 3, deduped_bytes_by_global_dedup: 1021 * k + 4, defrag_prevented_dedup_bytes: 1031 * k + 5,
+        total_chunks: 1033 * k + 6, deduped_chunks: 1039 * k + 7, new_chunks: 1049 * k + 8, deduped_chunks_by_global_dedup: 1051 * k + 9, defrag_prevented_dedup_chunks: 1061 * k + 10,
+        xorb_bytes_uploaded: 1063 * k + 11, shard_bytes_uploaded: 1069 * k + 12, total_bytes_uploaded: 1087 * k + 13,
+    };
+    let mut acc = DeduplicationMetrics::default();
+    if fields(&acc) != [0usize; 13] {
+        return Some(format!("DeduplicationMetrics::default() is not all zero: {:?}", fields(&acc)));
+    }
+    let mut want = [0usize; 13];
+    for k in [1usize, 0, 5, 977, 1 << 30] {
+        let m = mk(k);
+        let before = fields(&m);
+        acc.merge_in(&m);
+        for (a, b) in want.iter_mut().zip(before) {
+            *a += b;
+        }
+        if fields(&acc) != want || fields(&m) != before {
+            let i = (0..13).find(|&i| fields(&acc)[i] != want[i]).unwrap_or(0);
+            return Some(format!("DeduplicationMetrics::merge_in: after merging the value built from k={k}, field {} is {} but the sum of the merged values is {}", FIELD_NAMES[i], fields(&acc)[i], want[i]));
+        }
+    }
+    None
+}
+
+fn main() {
+    let args: Vec<String> = std::env::args().collect();
+    if args.len() == 3 && args[1] == "--child" {
+        let idx: usize = args[2].parse().unwrap();
+        let rc = catch_unwind(|| child(idx)).unwrap_or_else(|e| {
+            println!("WITNESS [configuration {:?}] the search itself panicked outside a guarded call: {}", CONFIGS[idx], panic_msg(e));
+            1
+        });
+        std::process::exit(rc);
+    }
+    if let Some(w) = check_merge_in() {
+        println!("WITNESS {w}");
+        std::process::exit(1);
+    }
+    let exe = std::env::current_exe().unwrap();
+    const VARS: [&str; 4] = ["HF_XET_NRANGES_IN_STREAMING_FRAGMENTATION_ESTIMATOR", "HF_XET_MIN_N_CHUNKS_PER_RANGE", "HF_XET_MIN_N_CHUNKS_PER_RANGE_HYSTERESIS_FACTOR", "HF_XET_MAX_XORB_CHUNKS"];
+    let handles: Vec<_> = (0..CONFIGS.len())
+        .map(|i| {
+            let mut cmd = std::process::Command::new(&exe);
+            cmd.arg("--child").arg(i.to_string()).stdout(std::process::Stdio::piped()).stderr(std::process::Stdio::piped());
+            for v in VARS {
+                cmd.env_remove(v);
+            }
+            if let Some((n, m, h, c)) = CONFIGS[i] {
+                cmd.env(VARS[0], n.to_string()).env(VARS[1], m.to_string()).env(VARS[2], h.to_string()).env(VARS[3], c.to_string());
+            }
+            let c = cmd.spawn().expect("spawn child");
+            std::thread::spawn(move || c.wait_with_output())
+        })
+        .collect();
+    let mut witness: Option<String> = None;
+    let mut trouble: Option<String> = None;
+    for (i, h) in handles.into_iter().enumerate() {
+        let out = h.join().unwrap().expect("child output");
+        let stdout = String::from_utf8_lossy(&out.stdout).to_string();
+        stdout.lines().filter(|l| l.starts_with("STATS")).for_each(|l| println!("{l}"));
+        match out.status.code() {
+            Some(0) => {},
+            Some(1) => witness = witness.or(stdout.lines().find(|l| l.starts_with("WITNESS")).map(|s| s.to_string())),
+            Some(2) => trouble = trouble.or(Some(stdout)),
+            _ => {
+                let err = String::from_utf8_lossy(&out.stderr);
+                let tail: Vec<&str> = err.lines().rev().take(4).collect();
+                witness = witness.or(Some(format!("WITNESS configuration {:?} (fragmentation window, min chunks per range, hysteresis, MAX_XORB_CHUNKS; None = defaults): the process died ({:?}): {}", CONFIGS[i], out.status, tail.into_iter().rev().collect::<Vec<_>>().join(" | "))));
+            },
+        }
+    }
+    if let Some(w) = witness {
+        println!("{w}");
+        std::process::exit(1);
+    }
+    if let Some(t) = trouble {
+        eprintln!("{t}");
+        std::process::exit(2);
     }
     println!("no violation found");
 }
